@@ -61,7 +61,10 @@ Section Methods.
   Proof. unfold MonthShape_len, ms. cbn [MonthShape_f_inner]. destruct s as [mx|mn mx|mx nat|gs ge mx]; shcbn; shape_solve. Qed.
 
   Lemma contains_ok d : MonthShape_contains ms d = Ret (sh_in s d).
-  Proof. unfold MonthShape_contains, ms. cbn [MonthShape_f_inner]. destruct s as [mx|mn mx|mx nat|gs ge mx]; reflexivity. Qed.
+  Proof.
+    unfold MonthShape_contains, ms. cbn [MonthShape_f_inner].
+    destruct s as [mx|mn mx|mx nat|gs ge mx]; first [reflexivity | autounfold with gen_new; shcbn; shape_solve; exfalso; lia].
+  Qed.
 
   Lemma first_day_ok : MonthShape_first_day ms = Ret (sh_first s).
   Proof. unfold MonthShape_first_day, ms. cbn [MonthShape_f_inner]. destruct s as [mx|mn mx|mx nat|gs ge mx]; reflexivity. Qed.
